@@ -436,6 +436,9 @@ def run(ctx: Ctx) -> None:
                       "file system, and make the store path - and whether two paths overlap - depend on the symbolic links of the machine")
     _n_spl = _spl(ctx, "C11.R16")
     rep.floor("C11.R16", _n_spl, 1)
+    rep.rule("C11.R20", "cycles of length 1 through a reference by name are analysed like every other reference: the seen-names set of a visitor does not start with the function's own name")
+    n20 = seen_names_start_empty(ctx, "C11.R20")
+    rep.floor("C11.R20", n20, 2)
     rep.rule("C11.R19", "a method called on the value of a dds call (`dds.load(p).upper()`) is not taken for that dds call: the dispatch of both inspectors on the API paths is "
                         "passed only by calls whose function expression is not the result of another call (a well-formed evaluation is not refused, no stray path is loaded)")
     n19 = method_on_result_is_not_the_call(ctx, "C11.R19")
@@ -841,6 +844,53 @@ def _record_push(f: Func, e: ast.AST, call: ast.Call) -> bool:
             if rec not in f.params and isinstance(obj, ast.Attribute) and isinstance(obj.value, ast.Name) and obj.value.id == rec and obj.attr != lst.elts[0].attr:
                 return True
     return False
+
+
+def seen_names_start_empty(ctx: Ctx, rule: str) -> int:
+    """The set of names that `visit_Name` of a visitor skips (`name not in self.<seen>`) must not hold the analysed function's own name before the walk starts: the reference
+    `map(f, xs)` inside f is a cycle of length 1, which is rejected only if the reference is analysed (the inspector then finds f on the call stack)."""
+    rep = ctx.report
+    prog = ctx.prog
+    n = 0
+    for q in ("dds.introspect.IntroVisitor", "dds._introspect_indirect.IntroVisitorIndirect"):
+        k = prog.cls(q)
+        if k is None or "__init__" not in k.methods or "visit_Name" not in k.methods:
+            continue
+        vn, init = k.methods["visit_Name"], k.methods["__init__"]
+        seen = {c.comparators[0].attr for c in vn.own_nodes() if isinstance(c, ast.Compare) and len(c.ops) == 1 and isinstance(c.ops[0], (ast.NotIn, ast.In))
+                and isinstance(c.comparators[0], ast.Attribute) and isinstance(c.comparators[0].value, ast.Name) and c.comparators[0].value.id == "self"}
+        ia = init.node.args
+        path_params = {x.arg for x in ia.posonlyargs + ia.args + ia.kwonlyargs if x.annotation is not None and unparse(x.annotation, 60).endswith("CanonicalPath")}
+        fl = flow_of(prog, init)
+        for st in init.own_nodes():
+            if not isinstance(st, (ast.Assign, ast.AnnAssign)) or st.value is None:
+                continue
+            tg = st.targets[0] if isinstance(st, ast.Assign) else st.target
+            if not (isinstance(tg, ast.Attribute) and isinstance(tg.value, ast.Name) and tg.value.id == "self" and tg.attr in seen):
+                continue
+            # only the sets that the constructor fills itself (a parameter - the local variables of the function - is another matter)
+            if isinstance(st.value, ast.Name) and st.value.id in init.params:
+                continue
+            if isinstance(st.value, ast.Call) and st.value.args and all(isinstance(a, ast.Name) and a.id in init.params for a in st.value.args):
+                continue
+            n += 1
+            own = []
+            for y in ast.walk(st.value):
+                if isinstance(y, ast.Name) and isinstance(y.ctx, ast.Load):
+                    try:
+                        roots = [d.value for d in fl.root_defs(y) if d.value is not None]
+                    except Exception:
+                        roots = []
+                    if any(isinstance(z, ast.Name) and z.id in path_params for r_ in roots + [y] for z in ast.walk(r_)):
+                        own.append(y.id)
+            desc = f"{k.name}: the names already seen (`self.{tg.attr}`) do not include the analysed function itself before the walk"
+            if own:
+                rep.bad(rule, init.qname, desc, init.loc(st), [f"{init.loc(st)}: `{unparse(st, 70)}`: `{own[0]}` is the last segment of the path of the function being analysed",
+                        "`def f(n): return list(map(f, range(n)))`: the reference to f inside f is skipped, dds.eval(f, 2) runs the user function; the cycle g -> map(h), h -> map(g) is refused "
+                        "with CIRCULAR_CALL (demo: /verif/findings/K11_self_reference_by_name.py)"], "own-name-seen", what="a function that refers to itself by name (a cycle of length 1) is not rejected")
+            else:
+                rep.ok(rule, init.qname, desc, init.loc(st))
+    return n
 
 
 def method_on_result_is_not_the_call(ctx: Ctx, rule: str) -> int:
